@@ -175,9 +175,17 @@ fn gen_url(r: &mut XRng) -> String {
         for _ in 0..n / 10 { s.push_str("0123456789"); }
     }
     let n = r.range(1, 4);
+    // a tenth of the URLs spell their words with upper-case letters (matching is case-insensitive)
+    let upper = r.chance(1, 10);
     for _ in 0..n {
         s.push_str(r.pick(&["/", "/", "/", "-", ".", "_", "/-"]));
-        s.push_str(word(r));
+        let w = word(r);
+        if upper {
+            let mut c = w.chars();
+            if r.chance(1, 2) { s.push_str(&w.to_uppercase()) } else if let Some(f) = c.next() { s.push_str(&f.to_uppercase().collect::<String>()); s.push_str(c.as_str()) }
+        } else {
+            s.push_str(w);
+        }
         if r.chance(1, 5) {
             s.push_str(&format!("{}", r.below(100)));
         }
